@@ -4,6 +4,7 @@ import (
 	"bytes"
 	"fmt"
 	"net"
+	"runtime"
 	"strings"
 	"sync"
 	"sync/atomic"
@@ -300,6 +301,64 @@ func textKinds() []textKind {
 
 func c06(c *core.Ctx) {
 	selfCheckOracles()
+	// What a value looks like on the wire does not depend on which message was the first in the process to carry it, nor
+	// on what became of that message: each variant is the first thing its process does with the library.
+	c.SectionFirst("first-use-then-reuse", 3, func(i int64, r *gen.Rand) {
+		var keep []*stun.Message
+		for code := 300; code < 700; code++ {
+			m1 := &stun.Message{Raw: make([]byte, 0, 2048)} // a long-lived message object: room for everything below
+			_ = m1.Build(stun.BindingError, stun.NewTransactionIDSetter(r.TID()))
+			if i == 1 {
+				m1 = stun.New() // the pre-allocated flavour
+				m1.Type = stun.BindingError
+				m1.WriteHeader()
+			}
+			if err := stun.ErrorCode(code).AddTo(m1); err != nil {
+				continue
+			}
+			rm, _ := ref.Parse(m1.Raw)
+			if rm == nil || len(rm.TLVs) != 1 {
+				c.Violate("wire-format", "wire-format:ErrorCode-first-use", map[string]interface{}{"code": code, "problem": "the first message of the process to carry this code is not one ERROR-CODE attribute", "raw_hex": core.Hex(m1.Raw)})
+
+				return
+			}
+			first := append([]byte(nil), m1.Raw[rm.TLVs[0].Off:rm.TLVs[0].Off+rm.TLVs[0].Len]...)
+			// the first message goes on to other uses (a pooled server message)
+			switch i {
+			case 0, 1:
+				m1.Reset()
+				_ = m1.Build(stun.BindingRequest, stun.NewTransactionIDSetter(r.TID()), stun.Nonce(bytes.Repeat([]byte{0xEE}, 96)))
+			case 2:
+				_ = stun.Decode(ref.Encode(0x0001, r.TID(), []ref.Attr{{Type: 0x0015, Value: bytes.Repeat([]byte{0xEE}, 96)}}), m1)
+			}
+			keep = append(keep, m1)
+			for round := 0; round < 2; round++ {
+				m2 := new(stun.Message)
+				_ = m2.Build(stun.BindingError, stun.NewTransactionIDSetter(r.TID()))
+				if err := stun.ErrorCode(code).AddTo(m2); err != nil {
+					c.Violate("wire-format", "wire-format:ErrorCode-first-use", map[string]interface{}{"code": code, "problem": "accepted for the first message, refused for a later one", "err": err.Error()})
+
+					return
+				}
+				c.Eval(1)
+				rm2, _ := ref.Parse(m2.Raw)
+				var got []byte
+				if rm2 != nil && len(rm2.TLVs) == 1 {
+					got = m2.Raw[rm2.TLVs[0].Off : rm2.TLVs[0].Off+rm2.TLVs[0].Len]
+				}
+				gc, _, ok := ref.DecErrorCode(got)
+				if !ok || gc != code || !bytes.Equal(got, first) {
+					c.Violate("wire-format", "wire-format:ErrorCode-first-use", map[string]interface{}{"code": code, "variant": i,
+						"problem":           "ERROR-CODE written for this code after the first message that carried it was reused differs from what that first message got",
+						"first_message_hex": core.Hex(first), "later_message_hex": core.Hex(got)})
+
+					return
+				}
+			}
+		}
+		c.Count("codes_first_used_then_reused", int64(len(keep)))
+		runtime.KeepAlive(keep)
+	})
 	kinds := addrKinds()
 	// (1) every port, three address shapes, every address attribute
 	c.Section("addresses", 256, func(i int64, r *gen.Rand) {
